@@ -7,6 +7,8 @@
   `unflatten` builds is C01's.
 -/
 import OptreeModel.Model.Ops
+import OptreeModel.Properties.C07
+import OptreeModel.Lemmas.UpToAlign
 
 namespace Optree
 
@@ -77,5 +79,85 @@ theorem C05_inplace_returns_tree (cfg : Cfg) (variant : MapVariant) (f : UserFn)
     | (simp at h; exact h.symm)
     | skip
   all_goals simp_all
+
+/-! ### which extra trees are accepted, and what they contribute per leaf
+
+Through the refinement theorems of C07: `flatten_up_to` on the first tree's treespec is the structural match
+`STree.upTo` against the first tree's shape, and it succeeds exactly for suffixes of that shape. -/
+
+theorem mapM_except_error_of_mem {α β : Type} (g : α → Except Err β) :
+    ∀ (l : List α) (x : α), x ∈ l → (∃ e, g x = .error e) → ∃ e, l.mapM g = .error e
+  | [], _, h, _ => by simp at h
+  | y :: l, x, h, hx => by
+      simp only [List.mapM_cons, bind, Except.bind]
+      cases hy : g y with
+      | error e => exact ⟨e, rfl⟩
+      | ok v =>
+        simp only [List.mem_cons] at h
+        rcases h with h | h
+        · subst h; obtain ⟨e, he⟩ := hx; rw [he] at hy; cases hy
+        · obtain ⟨e, he⟩ := mapM_except_error_of_mem g l x h hx
+          exact ⟨e, by simp [he]⟩
+
+/-- **an extra tree is accepted iff the first tree's shape is a prefix of its shape** (dict kinds
+interchangeable and matched by key, deques regardless of maxlen, same classes and registrations) -/
+theorem C05_rest_accepted_iff_suffix (cfg : Cfg) (hp : cfg.pred = Option.none) (t r : PyObj)
+    (ht : t.wf = true) (hr : r.wf = true) (ls : List PyObj) (sp : Spec) (h : flatten cfg t = .ok (ls, sp))
+    (hns : sp.ns = cfg.ns) :
+    okB (flattenUpTo cfg.reg sp r) =
+      (shapeOf cfg (!cfg.insertionOrdered) t).prefixB (shapeOf cfg (!cfg.insertionOrdered) r) := by
+  obtain ⟨e1, _⟩ := flatten_shapeOf cfg hp t ht ls sp h
+  obtain ⟨w1, g1⟩ := wg cfg (!cfg.insertionOrdered) t ht
+  rw [e1, hns]
+  exact C07_up_to_iff_prefix cfg _ _ w1 g1 r hr
+
+/-- on success every extra tree contributes exactly one sub-tree per leaf of the first tree -/
+theorem C05_rest_one_per_leaf (cfg : Cfg) (hp : cfg.pred = Option.none) (t r : PyObj) (ht : t.wf = true)
+    (ls : List PyObj) (sp : Spec) (h : flatten cfg t = .ok (ls, sp)) (subs : List PyObj)
+    (hs : flattenUpTo cfg.reg sp r = .ok subs) : subs.length = ls.length := by
+  obtain ⟨e1, hl⟩ := flatten_shapeOf cfg hp t ht ls sp h
+  obtain ⟨w1, _⟩ := wg cfg (!cfg.insertionOrdered) t ht
+  rw [e1] at hs
+  have := C07_flatten_up_to_count cfg.reg _ w1 _ _ r subs hs
+  rw [STree.spec_numLeaves] at this
+  rw [this, hl]
+
+/-- **a single extra tree that is not a suffix makes `tree_map` fail before any call of `f`** -/
+theorem C05_non_suffix_rejected (cfg : Cfg) (hp : cfg.pred = Option.none) (inplace : Bool) (f : UserFn)
+    (t : PyObj) (rests : List PyObj) (ht : t.wf = true) (ls : List PyObj) (sp : Spec)
+    (h : flatten cfg t = .ok (ls, sp)) (hns : sp.ns = cfg.ns) (r : PyObj) (hr : r ∈ rests) (hrw : r.wf = true)
+    (hnot : (shapeOf cfg (!cfg.insertionOrdered) t).prefixB (shapeOf cfg (!cfg.insertionOrdered) r) = false) :
+    (∃ e, (treeMapGen cfg .plain inplace f t rests).result = .error e) ∧
+    (treeMapGen cfg .plain inplace f t rests).log = [] := by
+  have hacc := C05_rest_accepted_iff_suffix cfg hp t r ht hrw ls sp h hns
+  rw [hnot] at hacc
+  have herr : ∃ e, flattenUpTo cfg.reg sp r = .error e := by
+    cases hx : flattenUpTo cfg.reg sp r with
+    | error e => exact ⟨e, rfl⟩
+    | ok v => rw [hx] at hacc; simp at hacc
+  obtain ⟨e, he⟩ := mapM_except_error_of_mem (flattenUpTo cfg.reg sp) rests r hr herr
+  unfold treeMapGen
+  simp [h, he]
+
+/-- **aligned arguments**: the i-th sub-tree an accepted extra tree `r` contributes is the one reached from
+`r` by following the i-th leaf path of the first tree (positions in sequences, keys in dicts whatever their
+kind or order, the registration's entries in custom nodes) -/
+theorem C05_rest_aligned (cfg : Cfg) (hp : cfg.pred = Option.none) (t r : PyObj) (ht : t.wf = true)
+    (ls : List PyObj) (sp : Spec) (h : flatten cfg t = .ok (ls, sp)) (hns : sp.ns = cfg.ns)
+    (subs : List PyObj) (hs : flattenUpTo cfg.reg sp r = .ok subs) :
+    ∃ ps, paths sp = .ok ps ∧ ps.length = subs.length ∧
+      ∀ (i : Nat) (p : List Key) (x : PyObj), ps[i]? = some p → subs[i]? = some x →
+        PyObj.follow cfg r p = some x := by
+  obtain ⟨e1, _⟩ := flatten_shapeOf cfg hp t ht ls sp h
+  obtain ⟨w1, g1⟩ := wg cfg (!cfg.insertionOrdered) t ht
+  obtain ⟨n1, r1⟩ := nr cfg (!cfg.insertionOrdered) t ht
+  have hk := eo cfg (!cfg.insertionOrdered) t
+  rw [e1, hns] at hs
+  rw [C07_flatten_up_to_refines cfg.reg _ w1] at hs
+  have hal := upTo_aligned cfg _ w1 hk n1 r1 g1 r [] subs hs
+  refine ⟨_, by rw [e1]; exact paths_enc _ w1 hk _ _, hal.length, ?_⟩
+  intro i p x h1 h2
+  have := hal.get i p x h1 h2
+  simpa [Reaches] using this
 
 end Optree
